@@ -459,9 +459,11 @@ func main() {
 			}
 			// a longer layer, with dropped features in front of, between and behind the ones that stay: every feature
 			// is clipped on its own, wherever it stands (in particular right after one or two dropped ones)
-			{
+			for _, ext := range []uint32{0, 512, 4096, 8192} {
 				members := []orb.Geometry{orb.Point{9, 9}, poly.Clone(), orb.Point{-9, -9}, orb.Point{8, 8}, ls.Clone(), orb.LineString{{4, 0}, {0, 4}}, orb.Point{9, 0}, orb.MultiPoint{{2, 2}, {7, 7}}, orb.Point{-1, -1}}
-				long := &mvt.Layer{Name: "long"}
+				// (the layer's extent is a property of the tile encoding; the clip box is given in the coordinates the
+				// features are in, whatever the extent)
+				long := &mvt.Layer{Name: "long", Version: 2, Extent: ext}
 				var wantG []orb.Geometry
 				for i, m := range members {
 					f := geojson.NewFeature(orb.Clone(m))
@@ -603,7 +605,9 @@ func main() {
 	}
 	var refMember func(box orb.Bound, g orb.Geometry) orb.Geometry
 	refMember = func(box orb.Bound, g orb.Geometry) orb.Geometry {
-		in := func(p orb.Point) bool { return p[0] >= box.Min[0] && p[0] <= box.Max[0] && p[1] >= box.Min[1] && p[1] <= box.Max[1] }
+		in := func(p orb.Point) bool {
+			return p[0] >= box.Min[0] && p[0] <= box.Max[0] && p[1] >= box.Min[1] && p[1] <= box.Max[1]
+		}
 		switch v := g.(type) {
 		case nil:
 			return nil
